@@ -1,61 +1,73 @@
 #!/usr/bin/env python3
-"""Apply each seeded change to /repo, run the check(s) of its property, undo. Usage:
-   tools/run_seeded.py [--tier quick] [--props C16,C17] [seed-id ...]
-Never leaves /repo modified (git checkout -- . in finally)."""
+"""Run the check(s) of a property against seeded changes. Usage:
+   tools/run_seeded.py [--tier quick] [--props C16,C17] [--jobs 2] [seed-id ...]
+Each seed is applied to its own scratch worktree of /repo HEAD (removed afterwards); /repo itself and the
+committed evidence are never touched (VP_REPO / VP_OUT point the check at the scratch copy)."""
 import json
 import os
 import subprocess
 import sys
 import time
+from concurrent.futures import ThreadPoolExecutor
 
 ROOT = os.path.dirname(os.path.dirname(os.path.abspath(__file__)))
 SEEDED = os.path.join(ROOT, 'seeded')
+RESFILE = os.path.join(SEEDED, 'RESULTS.json')
+
+
+def run_seed(sid, tier, props_override):
+    d = os.path.join(SEEDED, sid)
+    meta = json.load(open(os.path.join(d, 'meta.json')))
+    props = props_override or [meta['property']] + meta.get('also_check', [])
+    wt = '/tmp/seedwt/%s_%d' % (sid, os.getpid())
+    out = '/tmp/seedwt/out_%s_%d' % (sid, os.getpid())
+    os.makedirs('/tmp/seedwt', exist_ok=True)
+    res = {}
+    try:
+        subprocess.run(['git', '-C', '/repo', 'worktree', 'add', '-q', '--detach', wt, 'HEAD'], check=True)
+        p = subprocess.run(['git', '-C', wt, 'apply', os.path.join(d, 'patch.diff')], capture_output=True, text=True)
+        if p.returncode != 0:
+            print(sid, 'PATCH DOES NOT APPLY', p.stderr[:200])
+            return sid, res
+        for prop in props:
+            t0 = time.time()
+            env = dict(os.environ, VP_REPO=wt, VP_OUT=out)
+            q = subprocess.run([os.path.join(ROOT, 'check'), prop, '--tier', tier], capture_output=True, text=True, cwd=ROOT, env=env)
+            viol = [l for l in q.stdout.splitlines() if l.startswith('VIOLATION')]
+            obl = [l.strip() for l in q.stdout.splitlines() if l.strip().startswith('obligation:')]
+            res[prop + '/' + tier] = {'exit': q.returncode, 'detected': q.returncode == 1 and bool(viol), 'violations': len(viol),
+                                      'obligations': obl[:6], 'wall_s': round(time.time() - t0, 1)}
+            print('%-8s %-4s %-8s exit=%d detected=%s %s (%.0fs)' % (sid, prop, tier, q.returncode, q.returncode == 1 and bool(viol),
+                                                                obl[:3], time.time() - t0))
+            if q.returncode == 2:
+                print('   harness error:', [l[:300] for l in q.stdout.splitlines() if 'HARNESS-ERROR' in l][:2])
+            sys.stdout.flush()
+    finally:
+        subprocess.run(['git', '-C', '/repo', 'worktree', 'remove', '--force', wt], capture_output=True)
+        subprocess.run(['rm', '-rf', out])
+    return sid, res
 
 
 def main():
     args = sys.argv[1:]
-    tier = 'quick'
-    props_override = None
-    ids = []
+    tier, props_override, ids, jobs = 'quick', None, [], 1
     while args:
         a = args.pop(0)
         if a == '--tier':
             tier = args.pop(0)
         elif a == '--props':
             props_override = args.pop(0).split(',')
+        elif a == '--jobs':
+            jobs = int(args.pop(0))
         else:
             ids.append(a)
     if not ids:
         ids = sorted(d for d in os.listdir(SEEDED) if os.path.isdir(os.path.join(SEEDED, d)))
-    assert subprocess.run(['git', '-C', '/repo', 'status', '--porcelain'], capture_output=True, text=True).stdout.strip() == '', '/repo not clean'
-    resfile = os.path.join(SEEDED, 'RESULTS.json')
-    results = json.load(open(resfile)) if os.path.exists(resfile) else {}
-    for sid in ids:
-        d = os.path.join(SEEDED, sid)
-        meta = json.load(open(os.path.join(d, 'meta.json')))
-        props = props_override or [meta['property']] + meta.get('also_check', [])
-        try:
-            p = subprocess.run(['git', '-C', '/repo', 'apply', os.path.join(d, 'patch.diff')], capture_output=True, text=True)
-            if p.returncode != 0:
-                print(sid, 'PATCH DOES NOT APPLY', p.stderr[:200])
-                continue
-            for prop in props:
-                t0 = time.time()
-                q = subprocess.run([os.path.join(ROOT, 'check'), prop, '--tier', tier], capture_output=True, text=True, cwd=ROOT)
-                viol = [l for l in q.stdout.splitlines() if l.startswith('VIOLATION')]
-                obl = [l.strip() for l in q.stdout.splitlines() if l.strip().startswith('obligation:')]
-                results.setdefault(sid, {})[prop + '/' + tier] = {
-                    'exit': q.returncode, 'detected': q.returncode == 1 and bool(viol), 'violations': len(viol),
-                    'obligations': obl[:6], 'wall_s': round(time.time() - t0, 1)}
-                print('%-8s %-4s %-8s exit=%d detected=%s %s (%.0fs)' % (sid, prop, tier, q.returncode, q.returncode == 1 and bool(viol),
-                                                                    obl[:3], time.time() - t0))
-                if q.returncode == 2:
-                    print('   harness error:', [l for l in q.stdout.splitlines() if 'HARNESS-ERROR' in l][:2])
-                sys.stdout.flush()
-        finally:
-            subprocess.run(['git', '-C', '/repo', 'checkout', '--', '.'])
-            subprocess.run(['git', '-C', '/repo', 'clean', '-fdq', 'parso'])
-        json.dump(results, open(resfile, 'w'), indent=1, sort_keys=True)
+    with ThreadPoolExecutor(max_workers=jobs) as ex:
+        for sid, res in ex.map(lambda s: run_seed(s, tier, props_override), ids):
+            results = json.load(open(RESFILE)) if os.path.exists(RESFILE) else {}
+            results.setdefault(sid, {}).update(res)
+            json.dump(results, open(RESFILE, 'w'), indent=1, sort_keys=True)
 
 
 main()
